@@ -104,10 +104,21 @@ def rebuild(dt):
     return get_datatype(json.loads(json.dumps(dt.export_datatype())), 'p')
 
 
-class Recorder:
-    """a SecopClient whose connection is a recorder: request() encodes the frame with the real encode_msg_frame"""
+def describe_node(dt):
+    """what a `describe` request would answer for a node with one module `m` holding one custom parameter `_par` of this
+    datatype (the structure `SecNode.get_descriptive_data` produces), after its JSON round trip"""
+    return json.loads(json.dumps({
+        'modules': {'m': {'accessibles': {'_par': {'datainfo': dt.export_datatype(), 'description': 'p', 'readonly': False}},
+                          'description': 'm', 'interface_classes': ['Writable'], 'features': []}},
+        'equipment_id': 'c02', 'firmware': 'x', 'description': 'x'}))
 
-    def __init__(self, cdt):
+
+class Recorder:
+    """a SecopClient whose connection is a recorder: request() encodes the frame with the real encode_msg_frame.
+    Given the node's datatype, the client's tables (modules, identifier, internal names, the rebuilt datatype) are built by
+    the real `_init_descriptive_data` from the description"""
+
+    def __init__(self, cdt=None, dt=None):
         from frappy.client import SecopClient, NullLogger
         from frappy.protocol.interface import encode_msg_frame
 
@@ -125,9 +136,16 @@ class Recorder:
                 return ('changed', ident, [data, {}])
 
         c = self.client = Client('recorder', NullLogger)
-        c.modules = {'m': {'accessibles': {}, 'parameters': {'p': {'datatype': cdt}}, 'commands': {}, 'properties': {}}}
-        c.identifier = {('m', 'p'): 'm:p'}
-        c.internal = {'m:p': ('m', 'p')}
+        if dt is not None:
+            c._init_descriptive_data(describe_node(dt))
+            self.cdt = c.modules['m']['parameters']['par']['datatype']
+            self.ident = c.identifier['m', 'par']
+        else:
+            c.modules = {'m': {'accessibles': {}, 'parameters': {'par': {'datatype': cdt}}, 'commands': {}, 'properties': {}}}
+            c.identifier = {('m', 'par'): 'm:_par'}
+            c.internal = {'m:_par': ('m', 'par')}
+            self.cdt = cdt
+            self.ident = 'm:_par'
 
 
 def _out(f, enc):
@@ -303,23 +321,25 @@ def run_impl(tree, fmts, v):
     """every call of one case; returns (impl outcomes, fmt table, library test failures)"""
     from frappy.protocol.interface import encode_msg_frame, decode_msg
     dt = build_dt(tree, fmts)
-    impl = dict.fromkeys(['exp', 'node', 'client', 'cdt', 'text', 'back', 'again', 'cval', 'ctext', 'cback', 'cagain', 'sent',
-                          'cnode'])
+    impl = dict.fromkeys(KEYS)
     libfail = []
     floats = list(float_leaves(tree, v))
     try:
-        cdt = rebuild(dt)
+        rec = Recorder(dt=dt)                     # the client's own tables, built from the description
+        cdt = rec.cdt
         ctree = dtcodec.dt_to_tree(cdt)
         impl['cdt'] = ctree
+        if dtcodec.dt_to_tree(rebuild(dt)) != ctree:
+            libfail.append('client tables: the datatype in SecopClient.modules differs from get_datatype(description)')
     except Exception as e:
-        cdt, ctree = None, None
+        rec, cdt, ctree = None, None, None
         impl['cdt'] = {'err': type(e).__name__}
     # ---- wire ----
     impl['exp'], exp = _out(lambda: dt.export_value(v), enc_json)
     data = None
     if 'ok' in impl['exp']:
         try:
-            frame = encode_msg_frame('update', 'm:p', [exp, {}])
+            frame = encode_msg_frame('update', 'm:_par', [exp, {}])
             text = frame.decode('utf-8').split(' ', 2)[2]
             try:
                 json.loads(text, parse_constant=_reject_constant)
@@ -342,10 +362,9 @@ def run_impl(tree, fmts, v):
             impl['again'], _ = _out(lambda: dt.to_string(back), enc_text(tree))
     # ---- the client: cache item from the update message, its text, the string write ----
     if cdt is not None and data is not None:
-        rec = Recorder(cdt)
         try:
-            rec.client.updateValue('m', 'p', data, 1.0, None)
-            item = rec.client.cache['m', 'p']
+            rec.client.updateValue(*rec.client.internal[rec.ident], data, 1.0, None)
+            item = rec.client.cache['m', 'par']
             impl['cval'] = {'ok': dtcodec.py_to_json(item.value)}
         except Exception as e:
             item = None
@@ -360,14 +379,30 @@ def run_impl(tree, fmts, v):
                     impl['cagain'], _ = _out(lambda: cdt.to_string(cback), enc_text(ctree))
 
                 def send():
-                    rec.client.setParameterFromString('m', 'p', ctext)
+                    n = len(rec.sent)
+                    rec.client.setParameterFromString('m', 'par', ctext)
+                    if len(rec.sent) != n + 1:
+                        raise RuntimeError('no frame')
                     action, ident, sent = decode_msg(rec.sent[-1])
-                    if (action, ident) != ('change', 'm:p'):
+                    if (action, ident) != ('change', 'm:_par'):
                         raise RuntimeError('unexpected frame')
                     return sent
                 impl['sent'], sent = _out(send, enc_json)
                 if 'ok' in impl['sent']:
                     impl['cnode'], _ = _out(lambda: dt.import_value(sent), dtcodec.py_to_json)
+
+            def send_value():
+                n = len(rec.sent)
+                rec.client.setParameter('m', 'par', item.value)
+                if len(rec.sent) != n + 1:
+                    raise RuntimeError('no frame')
+                action, ident, sent = decode_msg(rec.sent[-1])
+                if (action, ident) != ('change', 'm:_par'):
+                    raise RuntimeError('unexpected frame')
+                return sent
+            impl['vsent'], vsent = _out(send_value, enc_json)
+            if 'ok' in impl['vsent']:
+                impl['vnode'], _ = _out(lambda: dt.import_value(vsent), dtcodec.py_to_json)
     # ---- the library leaves: the fmt read-back table, and the laws tested on the leaves drawn ----
     table, seen = [], set()
     leafdts = {}
@@ -416,10 +451,11 @@ def canon_out(o):
     return o
 
 
-KEYS = ['exp', 'node', 'client', 'cdt', 'text', 'back', 'again', 'cval', 'ctext', 'cback', 'cagain', 'sent', 'cnode']
+KEYS = ['exp', 'node', 'client', 'cdt', 'text', 'back', 'again', 'cval', 'ctext', 'cback', 'cagain', 'sent', 'cnode', 'vsent',
+        'vnode']
 
 
-CLIENT_KEYS = ['client', 'cdt', 'cval', 'ctext', 'cback', 'cagain', 'sent', 'cnode']
+CLIENT_KEYS = ['client', 'cdt', 'cval', 'ctext', 'cback', 'cagain', 'sent', 'cnode', 'vsent', 'vnode']
 
 
 def obs(d):
@@ -736,7 +772,7 @@ def run(ctx):
                 res.count('precondition.fmt-law-fails(text not judged)')
             if isinstance(impl.get('cdt'), dict) and 'err' in impl['cdt']:
                 res.count('client-datatype-not-rebuilt(client clauses not judged; C03)')
-            for k in ('exp', 'node', 'client', 'back', 'cback', 'sent', 'cnode'):
+            for k in ('exp', 'node', 'client', 'back', 'cback', 'sent', 'cnode', 'vsent', 'vnode'):
                 o = impl.get(k)
                 res.count(f'{k}=' + ('none' if o is None else 'ok' if 'ok' in o else 'err:' + o['err']))
             if t != 'bool':
